@@ -143,5 +143,148 @@ def run(P, tier="quick"):
         R.ok("RET-INDEX|vnacal_delete_calibration.c|vnacal_delete_calibration|clears-own-slot", PROPS)
     else:
         R.violated(Finding("RET-INDEX", PROPS, f.file, f.name, "clears-own-slot", "does not store NULL into vc_calibration_vector[ci]", f.line))
+    # (5) replace-by-name: once the search loop has matched the name, the matched index is the slot used
+    from ..flow import Engine
+    from ..consttrack import ConstTracker
+    f = P.need_func("_vnacal_add_calibration_common")
+    match = None
+    idxvar = None
+    for n in f.walk():
+        if n.k == "BinaryOperator" and n.op == "==" and n.kids[1].strip().cv == 0 and n.kids[0].strip().k == "CallExpr" and \
+                n.kids[0].strip().callee == "strcmp":
+            for a in n.kids[0].strip().args():
+                a_s = a.strip()
+                if a_s.k == "MemberExpr" and a_s.member == "cal_name":
+                    sub = a_s.kids[0].strip()
+                    if sub.k == "ArraySubscriptExpr" and sub.kids[1].strip().k == "DeclRefExpr":
+                        match = n
+                        idxvar = sub.kids[1].strip().refdecl
+    if match is None:
+        raise AnalysisBroken("_vnacal_add_calibration_common: name comparison not found")
+
+    class MatchTracker(ConstTracker):
+        def __init__(self, fn):
+            ConstTracker.__init__(self, fn)
+            self.bad = None
+
+        def on_branch(self, ints, extra, cond, truth, ctx):
+            c = cond.strip()
+            if c is match and truth:
+                return extra | {"matched"}
+            # idx < E  /  idx == E on the same extent expression
+            if c.k == "BinaryOperator" and c.op in ("<", "==", "!=", ">=") and c.kids[0].strip().k == "DeclRefExpr" and \
+                    c.kids[0].strip().refdecl == idxvar:
+                e = c.kids[1].text()
+                lt = ("lt", e) in extra
+                if c.op == "<":
+                    return (extra | {("lt", e)}) if truth else extra
+                if c.op == ">=":
+                    return (extra | {("lt", e)}) if not truth else extra
+                if c.op == "==" and truth and lt:
+                    return None
+                if c.op == "!=" and not truth and lt:
+                    return None
+            return extra
+
+        def on_node(self, ints, extra, n, ctx):
+            if n.k in ("BinaryOperator", "CompoundAssignOperator", "UnaryOperator") and n.kids and \
+                    n.kids[0].strip().k == "DeclRefExpr" and n.kids[0].strip().refdecl == idxvar and \
+                    (n.k != "BinaryOperator" or n.op == "=") and (n.k != "UnaryOperator" or n.op in ("++", "--")):
+                if "matched" not in extra:
+                    return frozenset(x for x in extra if not (isinstance(x, tuple) and x[0] == "lt"))
+            if "matched" in extra and self.bad is None:
+                if n.k in ("BinaryOperator", "CompoundAssignOperator") and n.op and n.op.endswith("=") and \
+                        n.op not in ("==", "!=", "<=", ">=") and n.kids[0].strip().k == "DeclRefExpr" and \
+                        n.kids[0].strip().refdecl == idxvar:
+                    self.bad = n
+                if n.k == "UnaryOperator" and n.op in ("++", "--") and n.kids[0].strip().k == "DeclRefExpr" and \
+                        n.kids[0].strip().refdecl == idxvar:
+                    # the loop increment after a match cannot happen (break): only flag if reachable
+                    self.bad = n
+            return extra
+    mt = MatchTracker(f)
+    Engine(f, mt, 100000).run()
+    if mt.bad is None:
+        R.ok("RET-INDEX|vnacal_calibration.c|_vnacal_add_calibration_common|replace-uses-matched-slot", PROPS)
+    else:
+        R.violated(Finding("RET-INDEX", PROPS | {"C07"} if isinstance(PROPS, set) else set(PROPS) | {"C07"}, f.file, f.name,
+                           "replace-uses-matched-slot", "after the name search matched an existing calibration the slot index is "
+                           "overwritten at line %d (%s): the calibration is not replaced in its own slot and a duplicate name "
+                           "results" % (mt.bad.line, mt.bad.text()[:60]), mt.bad.line))
+    # (6) ordered hash chains: every function that links an element into a chain some reader scans with an
+    #     ordered early exit must itself search the insertion point in order
+    readers = {}
+    writers = {}
+    for g in P.lib_functions():
+        if g.body is None:
+            continue
+        for n in g.walk():
+            if n.k == "BinaryOperator" and n.op == "=" and n.kids[0].strip().k == "MemberExpr" and \
+                    (n.kids[0].strip().member or "").endswith("_hash_next"):
+                writers.setdefault(n.kids[0].strip().member, set()).add(g.key())
+        for lp in g.walk():
+            if lp.k in ("ForStmt", "WhileStmt"):
+                adv = None
+                for m in lp.walk():
+                    if m.k == "MemberExpr" and (m.member or "").endswith("_hash_next"):
+                        adv = m.member
+                if adv is None:
+                    continue
+                ordered = any(m.k == "BinaryOperator" and m.op in (">", ">=", "<", "<=") and
+                              any(x.k == "MemberExpr" and x.member in ("vpmr_index",) for x in m.walk()) or
+                              (m.k == "BinaryOperator" and m.op in (">", ">=") and "index" in m.kids[0].text() and
+                               m.kids[1].strip().k == "DeclRefExpr")
+                              for m in lp.walk())
+                if ordered:
+                    readers.setdefault(adv, set()).add(g.key())
+    for fld, ws in sorted(writers.items()):
+        rs = readers.get(fld, set())
+        pure_readers = rs - ws
+        if not pure_readers:
+            continue
+        for w in sorted(ws):
+            file, name = w.split(":")
+            if w in rs:
+                R.ok("RET-INDEX|%s|%s|ordered-chain:%s" % (file, name, fld), {"C16", "C20"})
+            else:
+                R.violated(Finding("RET-INDEX", {"C16", "C20"}, file, name, "ordered-chain:" + fld,
+                                   "%s links elements through %s without searching the insertion point in index order, but %s "
+                                   "stops scanning at the first larger index: elements become unreachable" %
+                                   (name, fld, ", ".join(sorted(x.split(":")[1] for x in pure_readers))), P.func(name, file).line))
+    # (7) paired update: a parameter's value vector is replaced only together with its frequency vector
+    for g in P.lib_functions():
+        if g.cfg is None:
+            continue
+        for n in g.walk():
+            if n.k == "BinaryOperator" and n.op == "=" and n.kids[0].strip().k == "MemberExpr" and \
+                    n.kids[0].strip().member == "gamma_vector" and not is_null(n.kids[1]) and \
+                    "vpmr_gamma_vector" in n.kids[0].strip().macros:
+                base = n.kids[0].strip()
+                while base.k == "MemberExpr":
+                    base = base.kids[0].strip()
+                okp = False
+                for m in g.walk():
+                    dest = None
+                    if m.k == "CallExpr" and m.callee == "memcpy" and m.args():
+                        dest = m.args()[0]
+                    elif m.k == "BinaryOperator" and m.op == "=" and m is not n:
+                        dest = m.kids[0]
+                    if dest is None:
+                        continue
+                    d = dest.strip()
+                    if any(x.k == "MemberExpr" and x.member == "frequency_vector" and "vpmr_frequency_vector" in x.macros
+                           for x in d.walk()) and g.cfg.node_dominates(m, n):
+                        db = d
+                        while db.k in ("MemberExpr", "CStyleCastExpr", "ImplicitCastExpr", "ParenExpr"):
+                            db = db.kids[0].strip() if db.k != "MemberExpr" else db.kids[0].strip()
+                        if db.k == "DeclRefExpr" and base.k == "DeclRefExpr" and db.refdecl == base.refdecl:
+                            okp = True
+                key = "RET-INDEX|%s|%s|gamma-with-frequencies" % (g.file, g.name)
+                if okp:
+                    R.ok(key, {"C16", "C02"})
+                else:
+                    R.violated(Finding("RET-INDEX", {"C16", "C02"}, g.file, g.name, "gamma-with-frequencies",
+                                       "vpmr_gamma_vector is replaced at line %d on a path where vpmr_frequency_vector of the same "
+                                       "parameter has not been rewritten: the new values are paired with a stale frequency grid" % n.line, n.line))
     R.check_floor()
     return R
